@@ -29,6 +29,12 @@ def width(t):
         return 1, False
     if '*' in t or '&' in t:
         return 64, False
+    if t.endswith('pointer') or t.endswith('::iterator') or t.endswith('::const_iterator'):
+        return 64, False          # member typedefs of containers / views
+    if t.endswith('size_type'):
+        return 64, False
+    if t.endswith('difference_type'):
+        return 64, True
     import re as _re
     mv = _re.match(r'^(?:const )?__v(\d+)(q|h|s|d)[iuf]', t)
     if mv:
